@@ -292,6 +292,8 @@ func c01(c *Ctx) {
 	r.Rule("R01.D", "nothing reachable from tl.Marshal ranges over a map or reads a clock / random source", 1)
 	r.Rule("R01.H", "hand-written codecs are siblings: both methods exist, neither unconditionally panics, writer and reader sequences agree", 2)
 	r.Rule("R01.U", "no two registered constructors share an id", 1)
+	r.Rule("R01.V", "the decoder admits what the encoder emits: the count / length sanity bounds of popVector and PopRawBytes pass for every honest (size, bytes left) pair of the grid, and depend on nothing else", 2)
+	c01Admission(c)
 	tr := an.NewTracer()
 
 	pf, pp, err := c.computePopFacts()
@@ -393,6 +395,7 @@ func c01(c *Ctx) {
 
 	// byte strings: the writer's header/size/alignment and the reader's expectations (same tabulation as C02 R02.S)
 	c02Strings(c, tr, "R01.P", "", "string:")
+	c02FlagsPosition(c, tr, "R01.F")
 
 	// ---- R01.F ----------------------------------------------------------------------------------
 	c01Presence(c, pp, tr)
@@ -921,4 +924,91 @@ func reachesBlock(from, to *ssa.BasicBlock, seen map[*ssa.BasicBlock]bool) bool 
 		}
 	}
 	return false
+}
+
+// c01Admission: R01.V.  The size bounds that protect the decoder from hostile counts (C15) must not refuse honest
+// input: a vector of n int-sized elements occupies exactly 4n bytes, a byte string of n bytes exactly n.  The guards
+// on the way to the allocation are evaluated for (size, bytes left) pairs with nothing to spare; a guard that mentions
+// the size and cannot be evaluated from the size and the bytes left alone is reported as undecided.
+func c01Admission(c *Ctx) {
+	r := c.R
+	type site struct {
+		recv, fn, key string
+		unit          int64 // bytes per element for the honest grid
+	}
+	for _, st := range []site{{"*Decoder", "popVector", "admission:popVector", 4}, {"*Decoder", "PopRawBytes", "admission:PopRawBytes", 1}} {
+		f := c.fn("R01.V", load.TLPkg, st.recv, st.fn)
+		if f == nil {
+			continue
+		}
+		// the allocation and the size value
+		var alloc ssa.Instruction
+		var size ssa.Value
+		for _, b := range f.Blocks {
+			for _, in := range b.Instrs {
+				switch x := in.(type) {
+				case *ssa.MakeSlice:
+					alloc, size = x, x.Len
+				case *ssa.Call:
+					if an.CalleeName(x.Common()) == "reflect.MakeSlice" && len(x.Call.Args) == 3 {
+						alloc, size = x, x.Call.Args[1]
+					}
+				}
+			}
+		}
+		for {
+			cv, ok := size.(*ssa.Convert)
+			if !ok {
+				break
+			}
+			size = cv.X
+		}
+		if alloc == nil || size == nil {
+			r.Undecide("R01.V", st.key, c.pos(f.Pos()), "allocation sized by the wire value not found")
+			continue
+		}
+		var bad []string
+		undecidable := ""
+		n := 0
+		for _, cnt := range []int64{0, 1, 2, 3, 7, 255, 65536} {
+			for _, spare := range []int64{0, 4} {
+				left := cnt*st.unit + spare
+				atom := func(v ssa.Value) (int64, bool) {
+					if v == size {
+						return cnt, true
+					}
+					if call, ok := v.(*ssa.Call); ok && (an.CalleeName(call.Common()) == "(*bytes.Reader).Len" || an.CalleeName(call.Common()) == "(*bytes.Buffer).Len") {
+						return left, true
+					}
+					return 0, false
+				}
+				decide := func(i *ssa.If) (int, bool) {
+					if !i.Block().Dominates(alloc.Block()) {
+						return 0, false
+					}
+					res, ok := an.EvalCond(i.Cond, atom)
+					if !ok {
+						if an.Mentions(i.Cond, size) {
+							undecidable = c.pos(i.Cond.Pos())
+						}
+						return 0, false
+					}
+					if res {
+						return 0, true
+					}
+					return 1, true
+				}
+				n++
+				reach := an.ReachWith(f, nil, decide)
+				if !reach[alloc.Block()] {
+					bad = append(bad, sprintf("size=%d with %d bytes left is refused", cnt, left))
+				}
+			}
+		}
+		if undecidable != "" && len(bad) == 0 {
+			r.Undecide("R01.V", st.key, undecidable, "the bound on the wire size depends on something other than the size and the bytes left: cannot show that it admits every honest input (a bound scaled by the element's in-memory size rejects short elements)")
+			continue
+		}
+		r.Check(len(bad) == 0, "R01.V", st.key, c.pos(alloc.Pos()), sprintf("%d honest (size, bytes left) pairs evaluated: %s", n, strings.Join(bad, "; ")))
+	}
 }
